@@ -847,6 +847,32 @@ def undeclared_and_moved_family(ctx, n):
     import xml.dom
     from harness import impl
     rng = ctx.rng
+    # a prefix (or the default) declared twice with different URIs, comments anywhere inside the first rule: the rule
+    # that remains is well-formed, says what the mapping says, and the sheet reads back with the same pairs
+    for first in ('@namespace p "one";', '@namespace p "one" /*c*/;', '@namespace /*a*/ p /*b*/ "one" /*c*/ /*d*/ ;', '@namespace p url(one)/*c*/;',
+                  '@namespace "one" /*c*/;', '@namespace /*a*/ "one";', '@namespace/*a*/"one"/*c*/;'):
+        pre = 'p' if ' p ' in first or ' p/' in first else ''
+        second = '@namespace %s "two";' % pre
+        body = ' p|a, x[p|b]{l:0}' if pre else ' a{l:0}'
+        text = first + ' ' + second + body
+        impl.reset()
+        ctx.case(('redeclared-comments', text))
+        case = {'text': text, 'cls': None, 'family': 'redeclared-comments'}
+        try:
+            sheet = cssutils.parseString(text)
+            rules_ = [(r.prefix, r.namespaceURI) for r in sheet.cssRules if r.type == r.NAMESPACE_RULE]
+            view_ = dict(sheet.namespaces.items())
+            again = cssutils.parseString(sheet.cssText)
+            rules2 = [(r.prefix, r.namespaceURI) for r in again.cssRules if r.type == r.NAMESPACE_RULE]
+            pa, pb = all_pairs_deep(sheet), all_pairs_deep(again)
+        except Exception as e:  # noqa
+            ctx.violation('negation-raises', case, '%s: %s' % (type(e).__name__, e), KNOWN_PRED)
+            continue
+        if dict(rules_) != view_ or view_ != {pre: 'two'}:
+            ctx.violation('view-vs-rules', case, '@namespace rules %r, mapping %r, expected {%r: "two"}' % (rules_, view_, pre), KNOWN_PRED)
+        elif rules2 != rules_ or pa != pb:
+            ctx.violation('reparse-pairs', case, 'rules %r selectors %r; the text %r reads back as rules %r selectors %r' % (
+                rules_, pa, sheet.cssText.decode()[:200], rules2, pb), KNOWN_PRED)
     # re-declared URIs leave one prefix per URI and a mapping that is exactly the remaining rules
     for text in ('@namespace a "one"; @namespace b "two"; @namespace c "one"; @namespace d "two"; d|x{l:0}',
                  '@namespace a "one"; @namespace b "one"; @namespace c "one"; c|x{l:0}',
